@@ -114,6 +114,9 @@ def run_observers(scn):
             sims.append(sim)
             hs.append(h)
             fps.append(h.fingerprint())
+        for j, sm in enumerate(sims):
+            for st, step, name in sm.alias_violations[:1]:
+                V.append(Violation("state-mutated-in-place", f"configuration {j}: update {st}{step} modified the array of '{name}' it was handed in place (values must be rebound, not mutated)", quantity=name))
         h0 = hs[0]
         if h0.outcome.startswith("rejected"):
             raise Discard(f"rejected:{h0.exc[0]}:{h0.exc[1][:40]}")
